@@ -400,6 +400,36 @@ class Facts:
                 b = b[1] if b[0] == 'ref' else b
                 op = 'eq' if (short == 'eq') == val else 'ne'
                 return [('cmp', op, a, b), ('truth', e, val)]
+        if e[0] == 'place' and not e[2] and self.b.locals[e[1]] == 'bool' and not getattr(self, '_in_flag', False):
+            # a flag such as the lowering of `matches!(x, P)`: every definition is a constant, and exactly one of them is `val`:
+            # the flag having that value means control came through that definition, so the facts dominating it hold
+            ds = self.b.defs().get(e[1], [])
+            if ds and all(d[0] == 'stmt' and d[3][0] == 'use' and d[3][1][0] == 'k' for d in ds):
+                hit = [d for d in ds if (d[3][1][1] in ('1', 'true')) == val]
+
+                def adjacent(d):
+                    # the definition is followed at once by the test of the flag: nothing that could change the facts lies between
+                    # (rest of the defining block and the testing block hold only moves of plain locals / storage markers)
+                    def trivial(st):
+                        return st[0] in ('live', 'dead', 'nop') or (st[0] == '=' and not st[1][1] and st[2][0] in ('use', 'cast') )
+                    blk = self.b.blocks[d[1]]
+                    if not all(trivial(st) for st in blk['s'][d[2] + 1:]):
+                        return False
+                    t = blk['t']
+                    tgt = d[1]
+                    if t[0] == 'goto':
+                        tgt = t[1]
+                        if not all(trivial(st) for st in self.b.blocks[tgt]['s']):
+                            return False
+                        t = self.b.blocks[tgt]['t']
+                    return t[0] == 'switch' and t[1][0] in ('cp', 'mv') and t[1][1][0] == e[1] and not t[1][1][1]
+                if len(hit) == 1 and len(ds) >= 2 and adjacent(hit[0]):
+                    self._in_flag = True
+                    try:
+                        extra = [l for l, _e in self.literals_at(hit[0][1], hit[0][2])]
+                    finally:
+                        self._in_flag = False
+                    return [('truth', e, val)] + extra
         return [('truth', e, val)]
 
     def pred_summary(self, callee):
